@@ -11,7 +11,7 @@
      split_ok count split items     the contract of a signal's split (proved for the three real splits)
    The theorems are generic in the signal and hold for logs_run / traces_run / metrics_run through
    split_n_spec_logs / _traces / _metrics. *)
-From Verif Require Import Common.Base C17.Model C17.Bounded C17.Proofs1 C17.Proofs2 C17.ProofsB C17.Proofs3 Generated.C17Batch C17.Translated C17.Harness C17.Clauses C17.ProofsC.
+From Verif Require Import Common.Base C17.Model C17.Bounded C17.Proofs1 C17.Proofs2 C17.ProofsB C17.Proofs3 Generated.C17Batch C17.Translated C17.Harness C17.Clauses C17.ProofsC C17.ProofsL.
 From Coq Require Import Permutation.
 
 (* ---- split_n_spec: the three count-based splits ------------------------------------------------------
@@ -138,6 +138,15 @@ Theorem bp_cardinality_stale_refusal : forall R c now md (p : list R) st,
 Proof. exact (@stale_refusal). Qed.
 
 
+
+(* concurrent first arrivals of one group: the late one (stale Load miss) joins the shard the early one created —
+   no second shard, the state's length (= the count held against the cardinality limit) is unchanged *)
+Theorem bp_stale_joins_existing : forall R c now md (p : list R) st i,
+  mks c <> [] -> find_shard (aset_of (md_values c md)) st = Some i ->
+  (c_limit c = 0 \/ length st < c_limit c) ->
+  bp_consume_stale c now md p st = (upd_nth i (fun s => sh_enqueue s p) st, 0%N).
+Proof. exact (@stale_joins). Qed.
+
 (* ---- Consume concurrent with or after Shutdown (outside "accepted before shutdown began", stated for the record)
    Any schedule whatsoever, validated configuration: once every shard has returned, what was accepted (Consume
    returned nil) is exactly what was emitted plus what sits in the channels of the returned shards — a payload
@@ -223,6 +232,27 @@ Theorem clause_checker_item_equalities :
   (forall x y, item3_eqb x y = true <-> x = y) /\ (forall x y, item4_eqb x y = true <-> x = y).
 Proof. exact (conj item3_eqb_spec item4_eqb_spec). Qed.
 
+
+(* ---- the link: what the MODEL produces always passes the clause checker -----------------------------------------
+   model_out v is the observed-case record built from the model's own run (Harness.run_script: every Consume of the
+   script followed by every shard taking what is in its channel, timer firings at the deadlines, Shutdown at the end)
+   exactly as the harness builds it from the implementation's run.  For every split case, every Validate case and every
+   processor run whose script has no Shutdown in the middle (the guard of bp_conserves), of all three signals, every
+   configuration, every payload and metadata: the checker finds no violated clause.  So the checker never demands more
+   than the model delivers (no false alarm on a faithful implementation), and by clause_checker_*_sound the model's runs
+   satisfy the Prop-level clauses.  Not covered: scripts with Consume calls after Shutdown and the blocked-producer
+   scripts (the CBounded cases), see NOTES.md. *)
+Theorem checker_accepts_model : forall v, linkable v -> prop_viol (model_out v) = 0.
+Proof. exact checker_accepts_model_l. Qed.
+
+(* the same, generically in the signal *)
+Theorem checker_accepts_model_run : forall R X count split (items : list R -> list X) xeqb c,
+  items [] = [] -> (forall a b, items (a ++ b) = items a ++ items b) -> (forall p, count p = length (items p)) ->
+  (forall n p, n < count p -> items (fst (split n p)) ++ items (snd (split n p)) = items p /\ count (fst (split n p)) = n) ->
+  (forall x y, xeqb x y = true <-> x = y) ->
+  forall ops, no_shutdown ops -> run_viol count items xeqb c ops (run_script count split c ops) = 0.
+Proof. exact (@model_passes_run). Qed.
+
 Print Assumptions split_n_spec_logs.
 Print Assumptions split_n_spec_traces.
 Print Assumptions split_n_spec_metrics.
@@ -250,3 +280,6 @@ Print Assumptions clause_checker_run_sound.
 Print Assumptions clause_checker_split_sound.
 Print Assumptions clause_checker_item_equalities.
 Print Assumptions bp_metadata_isolation_unique.
+Print Assumptions bp_stale_joins_existing.
+Print Assumptions checker_accepts_model.
+Print Assumptions checker_accepts_model_run.
